@@ -39,13 +39,20 @@ ASSUMPTIONS = [
 ]
 MIN_JUDGED = {'quick': 300, 'thorough': 5000}
 REQUIRED_COUNTERS = ['obs:output', 'obs:partials', 'obs:totals-fwd', 'obs:totals-rev', 'obs:coloring-used',
-                     'obs:second-point', 'cell:diag', 'cell:nocoloring', 'cell:shape_by_conn',
+                     'obs:later-point', 'obs:output-after-linearize', 'obs:first-lin-at-zeros',
+                     'obs:first-lin-at-ones', 'obs:later-point-at-zeros', 'obs:resetup', 'obs:revisit',
+                     'obs:dynamic-sparsity-later-point-judged',
+                     'obs:dynamic-sparsity-later-point-judged-after-first-lin-at-zeros', 'cell:diag', 'cell:nocoloring', 'cell:shape_by_conn',
                      'cell:copy_shape', 'cell:units', 'cell:comp-units', 'cell:comp-shape', 'cell:constants',
                      'cell:multi-expr', 'cell:force_alloc_complex', 'obs:table-sweep']
 SHARD_TIMEOUT = {'quick': 900, 'thorough': 3600}
 
 NOISE_DRAWS = 4
 H = 1e-40
+# a complex-step linearization may leave Re f(x + ih) = f(x) - h^2 f''(x)/2 in the outputs: h = 1e-40 (the
+# documented ExecComp.complex_stepsize) and |f''| <= 1e10 for the guarded expressions (magnitudes <= 1e4,
+# arguments >= 0.2 away from singularities)
+CS_RESIDUE = 1e-70
 
 
 def register_extras():
@@ -77,28 +84,120 @@ def _decl_shape(shape):
     return (1,) if tuple(shape) == () else tuple(shape)
 
 
+SPECIAL_KINDS = ['zeros-some', 'zeros-some', 'zeros-some', 'zeros-var', 'zeros-all', 'ones', 'equal',
+                 'integers', 'mixed']
+# what ExecComp documents for its internal sparsity detection (declare_coloring defaults): inputs are
+# perturbed by 1e-9 relative (exact zeros by 1e-9 absolute) and entries below 1e-25 of the largest one
+# are structural zeros
+SPARSITY_PERTURB = 1e-9
+SPARSITY_TOL = 1e-25
+SPARSITY_MARGIN = 1e5     # the harness' own neighbourhood draws differ from ExecComp's by far less
+
+
+def _draw_point(rng, spec, kind):
+    """One candidate input point of the given kind (component units)."""
+    names = list(spec['inputs'])
+    zvar = names[int(rng.integers(len(names)))]
+    common = round(float(rng.uniform(-2.0, 2.0)), 6)
+    pt = {}
+    for n, meta in spec['inputs'].items():
+        shp = tuple(meta['shape'])
+        g = np.round(rng.uniform(-2.0, 2.0, size=shp), 6)
+        if kind == 'zeros-all':
+            v = np.zeros(shp)
+        elif kind == 'zeros-var':
+            v = np.zeros(shp) if n == zvar else g
+        elif kind == 'zeros-some':
+            v = np.where(rng.random(size=shp) < 0.5, 0.0, g)
+        elif kind == 'ones':
+            v = np.ones(shp)
+        elif kind == 'equal':
+            v = np.full(shp, common if rng.random() < 0.5 else round(float(rng.uniform(-2.0, 2.0)), 6))
+        elif kind == 'integers':
+            v = rng.integers(-2, 3, size=shp).astype(float)
+        elif kind == 'mixed':
+            sel = rng.integers(0, 4, size=shp)
+            v = np.choose(sel, [np.zeros(shp), np.ones(shp), -np.ones(shp), g])
+        else:
+            v = g
+        pt[n] = np.asarray(v, dtype=float).reshape(shp)
+    if kind == 'zeros-some' and not any(np.any(v == 0.0) for v in pt.values()):
+        v = pt[zvar].reshape(-1).copy()
+        v[int(rng.integers(v.size))] = 0.0
+        pt[zvar] = v.reshape(pt[zvar].shape)
+    return pt
+
+
+def _sample_point(rng, spec, kind, tries=60):
+    """A point of the given kind at which every function argument is inside its guarded domain."""
+    if kind in ('zeros-all', 'ones'):
+        tries = 1
+    elif kind != 'generic':
+        tries = 12
+    for _t in range(tries):
+        pt = _draw_point(rng, spec, kind)
+        try:
+            X.evaluate(spec['exprs'], _env(spec, pt, None), mode='guarded')
+        except X.DomainGuard:
+            continue
+        except (ValueError, TypeError, IndexError, ZeroDivisionError, OverflowError) as e:
+            raise X.HarnessError('generated expression is malformed: %s: %r' % (spec['exprs'], e))
+        return {k: v.tolist() for k, v in pt.items()}
+    return None
+
+
 def _sample_points(rng, spec, npoints=2, tries=60):
     pts = []
     for _ in range(npoints):
-        ok = False
-        for _t in range(tries):
-            pt = {}
-            for n, meta in spec['inputs'].items():
-                shp = tuple(meta['shape'])
-                v = rng.uniform(-2.0, 2.0, size=shp)
-                pt[n] = np.round(v, 6)
-            try:
-                X.evaluate(spec['exprs'], _env(spec, pt, None), mode='guarded')
-                ok = True
-                break
-            except X.DomainGuard:
-                continue
-            except (ValueError, TypeError, IndexError, ZeroDivisionError, OverflowError) as e:
-                raise X.HarnessError('generated expression is malformed: %s: %r' % (spec['exprs'], e))
-        if not ok:
+        pt = _sample_point(rng, spec, 'generic', tries)
+        if pt is None:
             return None
-        pts.append({k: v.tolist() for k, v in pt.items()})
+        pts.append(pt)
     return pts
+
+
+def make_plan(rng, spec):
+    """The history of the case: which points are visited in which order, where the model is set up
+    again.  The first linearization (where ExecComp detects its sparsity) is at a structurally special
+    point (exact zeros, ones = ExecComp's default values, equal entries, integers) or at a generic one
+    with the special point visited later.  Returns False when no generic point exists."""
+    r = rng.random()
+    if r < 0.3:
+        kinds = ['generic', 'generic']
+    else:
+        ngen = int(X_pick(rng, [1, 1, 2, 3]))
+        if rng.random() < 0.7:
+            kinds = ['special'] + ['generic'] * ngen
+        else:
+            kinds = ['generic', 'special'] + ['generic'] * (ngen - 1)
+    points, labels = [], []
+    for k in kinds:
+        pt = None
+        if k == 'special':
+            for _ in range(3):
+                k = str(X_pick(rng, SPECIAL_KINDS))
+                pt = _sample_point(rng, spec, k)
+                if pt is not None:
+                    break
+        if pt is None:
+            k = 'generic'
+            pt = _sample_point(rng, spec, 'generic')
+            if pt is None:
+                return False
+        points.append(pt)
+        labels.append(k)
+    steps = [{'pt': i} for i in range(len(points))]
+    if rng.random() < 0.3:
+        steps.append({'pt': int(rng.integers(len(points) - 1))})      # come back to an earlier point
+    if rng.random() < 0.2:
+        st = steps[int(rng.integers(1, len(steps)))]
+        st['resetup'] = True
+        if rng.random() < 0.5:
+            st['mode'] = 'rev' if spec['setup']['mode'] == 'fwd' else 'fwd'
+    spec['points'] = points
+    spec['kinds'] = labels
+    spec['steps'] = steps
+    return True
 
 
 def _env(spec, pt, step):
@@ -214,10 +313,8 @@ def make_spec(rng, names, origin='expr', fn=None, depth=None):
     spec['opts'] = opts
     spec['setup'] = {'force_alloc_complex': bool(rng.random() < 0.4),
                      'mode': str(X_pick(rng, ['fwd', 'rev']))}
-    pts = _sample_points(rng, spec)
-    if pts is None:
+    if not make_plan(rng, spec):
         return None
-    spec['points'] = pts
     return spec
 
 
@@ -279,43 +376,82 @@ def single_function_expr(rng, g, fn):
 # ----------------------------------------------------------------------------------------------
 # reference
 # ----------------------------------------------------------------------------------------------
+def _shaped(spec, vals):
+    return {o: np.broadcast_to(np.asarray(vals[o]), tuple(spec['outputs'][o])).copy() for o in spec['outputs']}
+
+
+def _cs_jac(spec, pt, mode='plain', amp=0.0, rng=None):
+    """Complex-step Jacobian of the harness evaluation of the expressions at pt."""
+    onames = list(spec['outputs'])
+    inames = list(spec['inputs'])
+    sizes = {n: int(np.prod(spec['inputs'][n]['shape'], dtype=int)) for n in inames}
+    osz = {o: int(np.prod(spec['outputs'][o], dtype=int)) for o in onames}
+    J = {(o, i): np.zeros((osz[o], sizes[i])) for o in onames for i in inames}
+    for i in inames:
+        for k in range(sizes[i]):
+            res = _shaped(spec, X.evaluate(spec['exprs'], _env(spec, pt, (i, k)), mode, amp, rng))
+            for o in onames:
+                J[o, i][:, k] = np.imag(res[o]).reshape(-1) / H
+    return J
+
+
 def reference(spec, pt, seed):
     """Outputs, complex-step Jacobian and their noise spreads, all in component units."""
     exprs = spec['exprs']
     onames = list(spec['outputs'])
-    inames = list(spec['inputs'])
-
-    def shaped(vals):
-        return {o: np.broadcast_to(np.asarray(vals[o]), tuple(spec['outputs'][o])).copy() for o in onames}
-
-    plain = shaped(X.evaluate(exprs, _env(spec, pt, None), 'plain'))
-    guard = shaped(X.evaluate(exprs, _env(spec, pt, None), 'guarded'))
+    plain = _shaped(spec, X.evaluate(exprs, _env(spec, pt, None), 'plain'))
+    guard = _shaped(spec, X.evaluate(exprs, _env(spec, pt, None), 'guarded'))
     for o in onames:
         if np.iscomplexobj(plain[o]) or not np.allclose(plain[o], guard[o], rtol=1e-14, atol=0):
             raise X.HarnessError('guarded evaluation disagrees with plain evaluation for %s' % exprs)
-    sizes = {n: int(np.prod(spec['inputs'][n]['shape'], dtype=int)) for n in inames}
-
-    def jac(mode, amp, rng):
-        J = {(o, i): np.zeros((plain[o].size, sizes[i])) for o in onames for i in inames}
-        for i in inames:
-            for k in range(sizes[i]):
-                res = shaped(X.evaluate(exprs, _env(spec, pt, (i, k)), mode, amp, rng))
-                for o in onames:
-                    J[o, i][:, k] = np.imag(res[o]).reshape(-1) / H
-        return J
-
-    J0 = jac('plain', 0.0, None)
+    J0 = _cs_jac(spec, pt)
     rng = np.random.default_rng(seed)
     Do = {o: np.zeros(plain[o].shape) for o in onames}
     DJ = {k: np.zeros(v.shape) for k, v in J0.items()}
     for _ in range(NOISE_DRAWS):
-        res = shaped(X.evaluate(exprs, _env(spec, pt, None), 'noisy', X.AMP, rng))
+        res = _shaped(spec, X.evaluate(exprs, _env(spec, pt, None), 'noisy', X.AMP, rng))
         for o in onames:
             Do[o] = np.maximum(Do[o], np.abs(np.real(res[o]) - plain[o]))
-        Jn = jac('noisy', X.AMP, rng)
+        Jn = _cs_jac(spec, pt, 'noisy', X.AMP, rng)
         for k in J0:
             DJ[k] = np.maximum(DJ[k], np.abs(Jn[k] - J0[k]))
     return plain, J0, Do, DJ
+
+
+def required_nonzeros(spec, pt, seed):
+    """Entries of the Jacobian that do not vanish in the 1e-9 neighbourhood of pt by a wide margin:
+    what a sparsity detection at pt (ExecComp: 3 sweeps at inputs perturbed by 1e-9 relative, exact zeros
+    by 1e-9 absolute, tolerance 1e-25 of the largest accumulated entry) has to find.  The harness uses
+    its own draws and keeps a factor 1e5 between its threshold and the documented tolerance."""
+    rng = np.random.default_rng(seed)
+    M = None
+    for _ in range(3):
+        q = {}
+        for n in spec['inputs']:
+            v = np.array(pt[n], dtype=float)
+            off = np.where(v == 0.0, 1.0, v) * SPARSITY_PERTURB
+            q[n] = v + off * rng.random(size=v.shape)
+        J = _cs_jac(spec, q)
+        M = {k: np.abs(v) for k, v in J.items()} if M is None else {k: M[k] + np.abs(J[k]) for k in M}
+    mx = max([float(v.max()) for v in M.values() if v.size] or [0.0])
+    if not np.isfinite(mx) or mx == 0.0:
+        return {k: np.zeros(v.shape, dtype=bool) for k, v in M.items()}
+    return {k: v > SPARSITY_TOL * SPARSITY_MARGIN * mx for k, v in M.items()}
+
+
+def point_class(pt):
+    """Structural class of an input point, by its values (used in mechanism keys and counters)."""
+    vals = [np.asarray(v, dtype=float).reshape(-1) for v in pt.values()]
+    allv = np.concatenate(vals) if vals else np.zeros(0)
+    if allv.size and np.any(allv == 0.0):
+        return 'zeros'
+    if allv.size and np.all(allv == 1.0):
+        return 'ones'
+    if allv.size and np.all(allv == np.round(allv)):
+        return 'integers'
+    if any(v.size > 1 for v in vals) and all(np.all(v == v[0]) for v in vals if v.size):
+        return 'equal'
+    return 'generic'
 
 
 def _tol(ref, spread, extra_scale=0.0):
@@ -392,10 +528,22 @@ def _kind(shape):
     return 'scalar' if int(np.prod(shape, dtype=int)) == 1 else 'array'
 
 
+def _set_and_run(prob, spec, pt):
+    for n, m in spec['inputs'].items():
+        fac, off = conv(m['src_units'], m['units'])
+        v = np.array(pt[n], dtype=float).reshape(tuple(m['shape']))
+        prob.set_val('ivc.' + n, v / fac - off)
+    prob.run_model()
+
+
 def judge(spec, acc, seed=0):
     case = spec
     origin = spec['origin']
-    fp = fingerprint({k: spec[k] for k in ('exprs', 'inputs', 'out_decl', 'opts', 'setup', 'consts')})
+    points = spec['points']
+    steps = spec.get('steps') or [{'pt': i} for i in range(len(points))]
+    fp = fingerprint({'spec': {k: spec[k] for k in ('exprs', 'inputs', 'out_decl', 'opts', 'setup', 'consts')},
+                      'plan': [point_class(points[st['pt']]) + ('/resetup' if st.get('resetup') else '')
+                               for st in steps]})
     onames = list(spec['outputs'])
     inames = list(spec['inputs'])
     for f in spec['funcs']:
@@ -403,12 +551,15 @@ def judge(spec, acc, seed=0):
     # -- references first (a DomainGuard here means a replayed/edited case left the domain)
     refs = []
     try:
-        for pi, pt in enumerate(spec['points']):
+        for pi, pt in enumerate(points):
             refs.append(reference(spec, pt, seed * 7919 + pi))
     except X.DomainGuard:
         acc.skip('domain-guard')
         return
+    classes = [point_class(pt) for pt in points]
     diag = spec['opts']['has_diag_partials']
+    tot_in = sum(int(np.prod(m['shape'], dtype=int)) for m in spec['inputs'].values())
+    tot_out = sum(int(np.prod(shp, dtype=int)) for shp in spec['outputs'].values())
     state = {'bad': False}
 
     def viol(key, what):
@@ -423,46 +574,79 @@ def judge(spec, acc, seed=0):
         return
     try:
         compared_any = False
-        for pi, pt in enumerate(spec['points']):
+        mode = spec['setup']['mode']
+        anchors = []           # required sparsity of every point that was the first linearization after a setup
+        need_anchor = True
+        resetup_done = False
+        seen = set()
+        first_class = classes[steps[0]['pt']]
+        for si, st in enumerate(steps):
+            pi = st['pt']
+            pt = points[pi]
             plain, J0, Do, DJ = refs[pi]
-            tag = '' if pi == 0 else ':2nd-point'
+            # ---- mechanism tag of this step: where in the history it sits
+            if si == 0:
+                tag = '' if classes[pi] == 'generic' else ':at-' + classes[pi]
+            else:
+                tag = ':later-point'
+                if first_class != 'generic':
+                    tag += ':first-lin-at-' + first_class
+                if classes[pi] != 'generic':
+                    tag += ':at-' + classes[pi]
+            if st.get('resetup'):
+                try:
+                    mode = st.get('mode', mode)
+                    prob.setup(force_alloc_complex=spec['setup']['force_alloc_complex'], mode=mode)
+                except Exception as e:
+                    viol('%s:%s:re-setup-raises:%s' % (origin, 'diag' if diag else 'plain', type(e).__name__),
+                         'second setup raised %s: %s' % (type(e).__name__, str(e)[:300]))
+                    return
+                resetup_done = True
+                need_anchor = True
+                acc.count('obs:resetup')
+                if 'mode' in st:
+                    acc.count('obs:resetup-mode-flip')
+            if resetup_done:
+                tag += ':after-resetup'
+            if pi in seen:
+                tag += ':revisit'
+                acc.count('obs:revisit')
+            seen.add(pi)
             try:
-                for n, m in spec['inputs'].items():
-                    fac, off = conv(m['src_units'], m['units'])
-                    v = np.array(pt[n], dtype=float).reshape(tuple(m['shape']))
-                    prob.set_val('ivc.' + n, v / fac - off)
-                prob.run_model()
+                _set_and_run(prob, spec, pt)
             except Exception as e:
                 viol('%s:%s:run-raises:%s%s' % (origin, 'diag' if diag else 'plain', type(e).__name__, tag),
                      'run_model raised %s: %s' % (type(e).__name__, str(e)[:300]))
                 return
             # inputs as seen by the component (unit conversion rounding enters the tolerance scale)
-            xin_scale = 0.0
             for n, m in spec['inputs'].items():
                 got = np.asarray(prob.get_val('c.' + n)).reshape(-1)
                 want = np.array(pt[n], dtype=float).reshape(-1)
                 if got.shape != want.shape or not np.allclose(got, want, rtol=1e-12, atol=1e-13):
                     raise X.HarnessError('input %s not delivered: %s vs %s' % (n, got, want))
-                xin_scale = max(xin_scale, float(np.max(np.abs(want))) if want.size else 0.0)
             unit_slack = 8 * EPS   # the connection's unit conversion perturbs inputs by a few ulp
             cell = 'diag' if diag else ('colored' if comp._coloring_info.coloring is not None else 'dense')
-            # ---- outputs
-            for o in onames:
-                got = np.asarray(prob.get_val('c.' + o))
-                acc.count('obs:output')
-                ref = plain[o]
-                if got.shape != ref.shape:
-                    viol('%s:%s:output-shape' % (origin, cell), '%s has shape %s, expected %s for %s'
-                         % (o, got.shape, ref.shape, spec['exprs']))
-                    continue
-                # sensitivity to the unit-conversion rounding of the inputs: |J| |x| ulp
-                sens = sum(np.abs(J0[o, i]) @ np.abs(np.array(pt[i], dtype=float).reshape(-1))
-                           for i in inames).reshape(ref.shape) * unit_slack
-                tol = _tol(ref, Do[o]) + sens
-                if not np.all(np.isfinite(got)) or np.any(np.abs(got - ref) > tol):
-                    viol('%s:%s:output%s' % (origin, cell, tag),
-                         'output %s of %s: %s (tol %.3g)' % (o, spec['exprs'], worst(got, ref),
+
+            # ---- outputs (read once after run_model and once more after the linearization)
+            def judge_outputs(cell, what, counter, slack=0.0):
+                for o in onames:
+                    got = np.asarray(prob.get_val('c.' + o))
+                    acc.count(counter)
+                    ref = plain[o]
+                    if got.shape != ref.shape:
+                        viol('%s:%s:output-shape' % (origin, cell), '%s has shape %s, expected %s for %s'
+                             % (o, got.shape, ref.shape, spec['exprs']))
+                        continue
+                    # sensitivity to the unit-conversion rounding of the inputs: |J| |x| ulp
+                    sens = sum(np.abs(J0[o, i]) @ np.abs(np.array(pt[i], dtype=float).reshape(-1))
+                               for i in inames).reshape(ref.shape) * unit_slack
+                    tol = _tol(ref, Do[o]) + sens + slack
+                    if not np.all(np.isfinite(got)) or np.any(np.abs(got - ref) > tol):
+                        viol('%s:%s:%s%s' % (origin, cell, what, tag),
+                             '%s %s of %s: %s (tol %.3g)' % (what, o, spec['exprs'], worst(got, ref),
                                                              float(np.max(tol))))
+
+            judge_outputs(cell, 'output', 'obs:output')
             # ---- derivatives
             try:
                 tot = prob.compute_totals(of=['c.' + o for o in onames], wrt=['ivc.' + i for i in inames],
@@ -473,32 +657,39 @@ def judge(spec, acc, seed=0):
                 return
             colored = comp._coloring_info.coloring is not None
             cell = 'diag' if diag else ('colored' if colored else 'dense')
+            judge_outputs(cell, 'output-after-linearize', 'obs:output-after-linearize', slack=CS_RESIDUE)
             if colored:
                 acc.count('obs:coloring-used')
-            if pi == 1:
-                acc.count('obs:second-point')
+            if si > 0:
+                acc.count('obs:later-point')
+            if si == 0 and classes[pi] != 'generic':
+                acc.count('obs:first-lin-at-' + classes[pi])
+            if si > 0 and classes[pi] != 'generic':
+                acc.count('obs:later-point-at-' + classes[pi])
+            # ExecComp detects the sparsity of its jacobian at the first linearization after a setup
+            if need_anchor:
+                anchors.append(required_nonzeros(spec, pt, seed * 7919 + 1000 + si))
+                need_anchor = False
             judge_derivs = True
-            if colored:
-                # dynamic sparsity was detected at the first point
-                J_first = refs[0][1]
-                allv = np.concatenate([np.abs(v).ravel() for v in J_first.values()])
-                mx = float(allv.max()) if allv.size else 0.0
-                nzv = allv[allv > 0]
-                if nzv.size and float(nzv.min()) < 1e-9 * mx:
-                    judge_derivs = False
-                    acc.count('guard:tiny-entry-vs-sparsity-tol')
-                if pi == 1:
-                    for k in J0:
-                        if np.any((J0[k] != 0) & (J_first[k] == 0)):
-                            judge_derivs = False
-                            acc.count('guard:sparsity-grew-at-2nd-point')
-                            break
-            if pi > 0 and state['bad']:
-                # the first point already failed: a second report of the same mechanism adds nothing
+            dyn = colored or (spec['opts']['do_coloring'] and not diag and tot_in > 1 and tot_out > 1)
+            if dyn:
+                # only entries that a sparsity detection at the anchor point(s) is bound to find may be
+                # nonzero here (entries that vanish in the whole 1e-9 neighbourhood of the anchor, or are
+                # within 1e5 of the sparsity tolerance there, are left unjudged)
+                for R in anchors:
+                    if any(np.any((J0[k] != 0) & ~R[k]) for k in J0):
+                        judge_derivs = False
+                        acc.count('guard:nonzero-outside-sparsity-required-at-first-linearization')
+                        break
+            if si > 0 and state['bad']:
+                # an earlier point already failed: a second report of the same mechanism adds nothing
                 judge_derivs = False
             if not judge_derivs:
                 continue
-            mode = spec['setup']['mode']
+            if dyn and si > 0:
+                acc.count('obs:dynamic-sparsity-later-point-judged')
+                if first_class == 'zeros':
+                    acc.count('obs:dynamic-sparsity-later-point-judged-after-first-lin-at-zeros')
             for o in onames:
                 for i in inames:
                     ref = J0[o, i]
@@ -522,7 +713,7 @@ def judge(spec, acc, seed=0):
                     acc.count('obs:partials')
                     if sj is None:
                         if np.any(ref != 0):
-                            viol('%s:%s:%s:partials-undeclared-nonzero' % (origin, cell, okind),
+                            viol('%s:%s:%s:partials-undeclared-nonzero%s' % (origin, cell, okind, tag),
                                  'partial d%s/d%s of %s is not declared but the derivative is nonzero'
                                  % (o, i, spec['exprs']))
                         continue
@@ -555,6 +746,13 @@ def judge(spec, acc, seed=0):
             acc.count('cell:multi-expr')
         if spec['setup']['force_alloc_complex']:
             acc.count('cell:force_alloc_complex')
+        for k in spec.get('kinds', []):
+            if k != 'generic':
+                acc.count('plan:' + k)
+        if first_class != 'generic' and len(steps) > 1:
+            acc.count('plan:special-first')
+        elif any(c != 'generic' for c in classes):
+            acc.count('plan:generic-first-special-later')
         for f in spec.get('features', []):
             acc.count('feat:' + f)
         if origin != 'expr':
